@@ -110,19 +110,21 @@ def subs_unsub(tier):
 def stop_race(tier, pol="block", variant=0):
     """dispatchers racing one stopper; dispatch after the stop; a direct and a channeled subscriber"""
     stops = [[O("stop")], [O("close"), O("stop")], [O("stop"), O("stop")], [O("drop_store")],
-             [O("close"), O("drop_store")], [O("drop_store")], [O("stop")]][variant]
+             [O("close"), O("drop_store")], [O("drop_store")], [O("stop")], [O("stop")]][variant]
     rs = {"r1": {0: red("D"), 1: red("D", eff("task"))}}
     progs = [{"c1": [S("subscribed", "s1"), D(1, "impl"), D(2, "trait")],
               "c2": stops + [D(3, "impl"), O("get_state"), O("metrics")]}]
     if variant == 6:          # the channeled subscription is being unsubscribed while the store is stopped
         progs[0]["c1"] = progs[0]["c1"] + [S("unsub", "s1")]
+    if variant == 7:          # several subscribers to release at shutdown, the channeled one not the first
+        progs[0]["c1"] = [S("add_sub", "s2")] + progs[0]["c1"]
     if variant == 5:          # a second handle stops the store while the droppable one is dropped
         progs[0]["c3"] = [O("stop"), O("get_state")]
     elif tier != "quick":
         progs[0]["c3"] = [D(4, "store")]
     acts = {1: 0, 2: 1, 3: 0, 4: 0}
     return _i("stop_%s_v%d" % (pol, variant), progs, acts, cap=1, pol=pol, red_script=rs, max_tasks=1,
-              subs={"s1": {"kind": "chan", "cap": 1, "pol": "block"}})
+              subs={"s1": {"kind": "chan", "cap": 1, "pol": "block"}, "s2": {"kind": "direct"}})
 
 
 def burst(tier, pol, cap):
@@ -150,8 +152,9 @@ def readers(tier):
     progs = [{"c1": [D(1), D(2)] + ([D(3)] if tier != "quick" else []) + STOP,
               "c2": [S("add_sub", "s1"), O("get_state"), O("get_state")],
               "c3": [O("get_state"), O("get_state")]}]
-    return _i("read", progs, {1: 0, 2: 0, 3: 0}, cap=2, subs={"s1": {"kind": "direct"}}, mws=("m1",),
-              reducers=("r1", "r2"))
+    # the first action is answered Keep with a changed state: published like any other, nobody notified
+    return _i("read", progs, {1: 1, 2: 0, 3: 0}, cap=2, subs={"s1": {"kind": "direct"}}, mws=("m1",),
+              reducers=("r1", "r2"), red_script={"r1": {0: red("D"), 1: red("K")}, "r2": {0: red("D"), 1: red("K")}})
 
 
 def life(tier, kind="direct", pol="block", dpol="block", dcap=2):
@@ -495,12 +498,12 @@ def table(pid, tier):
                  gen=[(a, 800 if q else 20000), (b, 800 if q else 20000), (c, 300 if q else 20000)],
                  free=[(a, 100 if q else 1500), (b, 100 if q else 1500), (c, 40 if q else 500)])
     elif pid == "C04":
-        vs = [0, 1, 6] if q else [0, 1, 2, 6]
+        vs = [0, 1, 6, 7] if q else [0, 1, 2, 6, 7]
         insts = [stop_race(tier, "block", v) for v in vs] + [stop_race(tier, "latest", 0)] + \
             ([] if q else [stop_race(tier, "oldest", 0)])
-        inv = ["C04_Barrier", "C04_ErrNeverReduced", "C10_Flush"]
-        T = dict(mc=[(i, inv, ["C04_Final"]) for i in insts], gen=[(i, 450 if q else 10000) for i in insts[:4]],
-                 free=[(i, 50 if q else 500) for i in insts], live=[(insts[0], ["Live_ClientsDone", "Live_StopReturns"])])
+        inv = ["C04_Barrier", "C04_ErrNeverReduced", "C10_Flush", "C09_Released"]
+        T = dict(mc=[(i, inv, ["C04_Final"]) for i in insts], gen=[(i, 400 if q else 10000) for i in insts[:5]],
+                 free=[(i, 40 if q else 500) for i in insts], live=[(insts[0], ["Live_ClientsDone", "Live_StopReturns"])])
     elif pid == "C05":
         insts = [burst(tier, "block", 1)] + ([] if q else [burst(tier, "block", 2)])
         inv = ["C05_Bound", "C05_NoLoss", "C01_ExactlyOnce"]
